@@ -162,7 +162,12 @@ func (br *xmpReader) readAttribute(tag *Tag) (attr Attribute, err error) {
 func (br *xmpReader) skipEq(c byte) (err error) {
 	var buf []byte
 	for {
-		if buf, err = br.Peek(maxTagHeaderSize); err != nil {
+		// (the reader's own Peek: what is looked for may be the last byte of
+		// the stream, and xmpReader.Peek refuses windows of four bytes or less)
+		if buf, err = br.r.Peek(maxTagHeaderSize); len(buf) == 0 {
+			if err == nil {
+				err = io.EOF
+			}
 			return err
 		}
 		n := 0
